@@ -21,7 +21,7 @@ func init() {
 			"metadata, Equal(current.Hash, incoming.Hash)}. R4 (creation bindings): the created literal binds Name<-A[2], Creator<-CallerAddr, Royalties<-r, Hash<-A[4], Attributes<-A[5], URIs<-A[6:], with r the number decoded from A[3], and its save is cut by " +
 			"not(r > MaxRoyalty). R5 (one entry per nonce): below the NFT functions every balance-class key is prefix‖token‖Bytes(nonce) (shared with C05-R3). R2 also: a credit that saves the destination's own entry back under a key with a nonce part must first take the arriving TokenMetaData over (equal hashes do not mean equal URIs / attributes). Does NOT decide: byte equality across a protobuf hop (C14's tables), chains of transfers as executions.",
 		Trusted: []string{"A-deps (the marshaller does not alter the entry)", "T-REG names"},
-		Rules:   []func(*Ctx){c08r1, c08r2, c08r4, c08r5},
+		Rules:   []func(*Ctx){c08r1, c08r2, c08r4, c08r5, c08r6},
 	})
 }
 
@@ -610,4 +610,15 @@ func onlyBelow(p *Prog, fn *ssa.Function, r Registration) bool {
 		}
 	}
 	return true
+}
+
+
+// c08r6: "the metadata … arrives unchanged at the destination of any chain of … cross-shard … transfers": the metadata message
+// is encoded field by field as it is — tags, presence tests and size contributions of the generated encoder agree with the
+// documented format for the MetaData message (shared with C14-R1); an encoder that leaves out an empty URI loses it at the
+// first storage write.
+func c08r6(c *Ctx) {
+	c.shareRule(c14r1, "C14-R1", "C08-R6", "the metadata message is encoded field by field as it is (tables and presence tests of the generated encoder)", func(o Oblig) bool {
+		return strings.HasPrefix(o.Func, "MetaData") || strings.HasPrefix(o.Construct, "MetaData") || o.Kind == "anchor"
+	})
 }
